@@ -10,6 +10,7 @@ Definition std_with (w : bstr) : bool :=
 
 Definition k_link := bs "link". Definition k_max := bs "max".
 Definition k_tag := bs "tag".   Definition k_tags := bs "tags".
+Definition k_hdr := bs "hdr".
 
 Definition field_ok (e : bstr * cval) : bool :=
   let '(k, v) := e in
@@ -17,6 +18,7 @@ Definition field_ok (e : bstr * cval) : bool :=
   else if beq k k_max then match v with VInt _ => true | _ => false end
   else if beq k k_tag then match v with VStr _ => true | _ => false end
   else if beq k k_tags then match v with VList _ => true | _ => false end
+  else if beq k k_hdr then match v with VMap _ => true | _ => false end
   else false.
 
 Fixpoint nodup_keys (m : cmap) : bool :=
@@ -27,7 +29,7 @@ Definition cget (k : bstr) (m : cmap) : option cval := slookup k m.
 (* the typed caveats keep the four fields in a fixed order (Cav.ToIPLD) *)
 Definition normalize (m : cmap) : cmap :=
   filter_map (fun k => match cget k m with Some v => Some (k, v) | None => None end)
-             [k_link; k_max; k_tag; k_tags].
+             [k_link; k_max; k_tag; k_tags; k_hdr].
 
 Definition std_nb (n : nbv) : option cmap :=
   match n with
@@ -51,6 +53,12 @@ Definition std_derives (c d : cap) : bool :=
   | None => true end &&
   match cget k_tags (nb d) with
   | Some (VList dl) => match cget k_tags (nb c) with Some (VList cl) => subsetb cl dl | _ => false end
+  | Some _ => false
+  | None => true end &&
+  match cget k_hdr (nb d) with
+  | Some (VMap dm) => match cget k_hdr (nb c) with
+                      | Some (VMap cm) => forallb (fun e => existsb (fun e' => beq (fst e) (fst e') && beq (snd e) (snd e')) dm) cm
+                      | _ => false end
   | Some _ => false
   | None => true end.
 
